@@ -76,7 +76,8 @@ func TestGovcHarness_Formatters(t *testing.T) {
 		}
 	}
 	if os.Getenv("GOVC_TIER") != "thorough" {
-		configs = [][4]int{{0, 0, 0, 0}, {1, 1, 1, 1}, {2, 2, 2, 2}, {0, 1, 2, 0}, {2, 0, 1, 1}, {1, 2, 0, 2}}
+		// every pair of tools differs in presence in at least one configuration (a result cached in the wrong slot shows)
+		configs = [][4]int{{0, 0, 0, 0}, {1, 1, 1, 1}, {2, 2, 2, 2}, {0, 1, 2, 0}, {2, 0, 1, 1}, {1, 2, 0, 2}, {0, 0, 1, 0}, {0, 0, 0, 1}, {1, 0, 0, 0}, {0, 1, 0, 0}}
 	}
 	probes := []string{"which goimports", "dart format --help", "npx prettier -v", "pg_format -v"}
 	runs := []string{"goimports -w ", "dart format /", "npx prettier --write ", "pg_format -i "}
